@@ -989,9 +989,15 @@ func (r *runner) cancelAllCycle(rng *sim.Rng, c cfg) {
 				dir, price = "B", tickOf(ctr*94/100)
 			}
 			amt := amtGrid[rng.Intn(len(amtGrid))]
+			if ctr < 5000 {
+				amt *= 6
+			}
 			offer := amt + amt/5 + 1
 			if dir == "B" {
 				offer = (price*amt+PS-1)/PS*12/10 + 2
+			}
+			if offer < 100 {
+				offer = 100
 			}
 			r.step("LimitOrder", M{"u": u, "app": app, "pair": pair, "dir": dir, "price": price, "amt": amt, "offer": offer, "life": life})
 		}
@@ -1141,42 +1147,40 @@ func driveRandom(lg *sim.Log, base *World, seed int64, runs, steps int) {
 		if rng.Intn(3) == 0 {
 			r.step("CreatePair", M{"u": "u1", "app": c.apps[0], "base": "uaa", "quote": "ubb"}) // duplicate
 		}
-		cyc := []int{steps / 4, steps * 2 / 3}
-		lad := []int{steps / 6, steps / 2, steps * 5 / 6}
-		call := []int{steps / 3, steps * 11 / 20, steps * 3 / 4}
-		mkt := []int{steps / 5, steps * 2 / 5, steps * 7 / 10}
-		frm := []int{steps * 11 / 20}
-		adv := []int{steps / 8, steps * 6 / 10}
-		rfl := []int{steps / 7, steps * 13 / 20}
-		low := []int{steps / 4, steps / 2, steps * 4 / 5}
-		for r.n < steps {
-			switch {
-			case c.mm && len(cyc) > 0 && r.n >= cyc[0]:
-				cyc = cyc[1:]
-				r.mmCycle(rng, c)
-			case c.mm && len(lad) > 0 && r.n >= lad[0]:
-				lad = lad[1:]
-				r.ladderCycle(rng, c)
-			case len(mkt) > 0 && r.n >= mkt[0]:
-				mkt = mkt[1:]
-				r.marketCycle(rng, c)
-			case len(adv) > 0 && r.n >= adv[0]:
-				adv = adv[1:]
-				r.foreignCoinCycle(rng, c)
-			case len(rfl) > 0 && r.n >= rfl[0]:
-				rfl = rfl[1:]
-				r.refillCycle(rng, c)
-			case len(r.nominal) > 0 && len(low) > 0 && r.n >= low[0]:
-				low = low[1:]
-				r.lowResidualCycle(rng, c)
-			case len(frm) > 0 && r.n >= frm[0]:
-				frm = frm[1:]
-				r.farmCycle(rng, c)
-			case len(call) > 0 && r.n >= call[0]:
-				call = call[1:]
-				r.cancelAllCycle(rng, c)
-			default:
+		// the directed cycles of this run, in shuffled order, alternating with stretches of random steps: every cycle
+		// kind occurs in every run it applies to, and about half of the steps stay random
+		type cyc func(*sim.Rng, cfg)
+		plan := []cyc{r.marketCycle, r.marketCycle, r.foreignCoinCycle, r.refillCycle}
+		if c.mm {
+			plan = append(plan, r.mmCycle, r.ladderCycle)
+			if rng.Intn(2) == 0 {
+				plan = append(plan, r.ladderCycle)
+			}
+		}
+		if len(r.nominal) > 0 {
+			plan = append(plan, r.lowResidualCycle, r.lowResidualCycle)
+		}
+		if c.pools && (i%2 == 0 || rng.Intn(3) == 0) {
+			plan = append(plan, r.farmCycle)
+		}
+		for _, app := range c.apps {
+			if len(c.pairsOf[app]) > 1 {
+				plan = append(plan, r.cancelAllCycle, r.cancelAllCycle)
+				break
+			}
+		}
+		rng.Shuffle(len(plan), func(a, b int) { plan[a], plan[b] = plan[b], plan[a] })
+		gap := steps / (2 * (len(plan) + 1)) // random steps between two cycles
+		for len(plan) > 0 || r.n < steps {
+			for k := 0; k < gap || (len(plan) == 0 && r.n < steps); k++ {
 				r.randomStep(rng, c)
+			}
+			if len(plan) > 0 {
+				plan[0](rng, c)
+				plan = plan[1:]
+			}
+			if r.n > 2*steps {
+				break
 			}
 		}
 		r.drain(c)
